@@ -133,7 +133,7 @@ theorem argsLoc_host (args : Var → Int) :
     ∀ params : List (Var × Bool), ArgsLoc params (hostArgs args params) := by
   intro params
   induction params with
-  | nil => simp [hostArgs, ArgsLoc]
+  | nil => simp [ArgsLoc]
   | cons p ps ih =>
     obtain ⟨pv, isPtr⟩ := p
     cases isPtr <;> simp [hostArgs, ArgsLoc, ih, holds, Region.isLocal]
